@@ -35,7 +35,7 @@ CASES = [
     ('redirect.count_off_by_one', 'src/cgi/response.rs', 'Ok(LOCATION.len() + 2 + val.len())', 'Ok(LOCATION.len() + 1 + val.len())', ['C20'], 'mutant'),
     ('headers.count_missing_separator', 'src/cgi/response.rs', 'written += name.len() + val.len() + 3;', 'written += name.len() + val.len() + 2;', ['C20'], 'mutant'),
     ('headers.value_before_name', 'src/cgi/response.rs', '        w.write_all(name)?;\n        w.write_all(b": ")?;\n        w.write_all(val)?;', '        w.write_all(val)?;\n        w.write_all(b": ")?;\n        w.write_all(name)?;', ['C20'], 'mutant'),
-    ('epilogue.endrequest_first', 'src/protocol/body.rs', '    for &s in streams {\n        let rec = RecordHeader::new(s, request_id);\n        buf.extend_from_slice(&rec.to_bytes());\n    }\n    buf.extend_from_slice(&EndRequest::from(status).to_record(request_id));', '    buf.extend_from_slice(&EndRequest::from(status).to_record(request_id));\n    for &s in streams {\n        let rec = RecordHeader::new(s, request_id);\n        buf.extend_from_slice(&rec.to_bytes());\n    }', ['C17'], 'mutant-or-undecided'),
+    ('epilogue.endrequest_first', 'src/protocol/body.rs', '    for &s in streams {\n        let rec = RecordHeader::new(s, request_id);\n        buf.extend_from_slice(&rec.to_bytes());\n    }\n    buf.extend_from_slice(&EndRequest::from(status).to_record(request_id));', '    buf.extend_from_slice(&EndRequest::from(status).to_record(request_id));\n    for &s in streams {\n        let rec = RecordHeader::new(s, request_id);\n        buf.extend_from_slice(&rec.to_bytes());\n    }', ['C17'], 'mutant'),
     # ---- harmless edits: must stay exit 0
     ('harmless.rename_local', 'src/parser/stream.rs', 'let parsed_len = self.gap_start - self.parsed_start;\n        self.parsed_start += min(amt, parsed_len);', 'let plen = self.gap_start - self.parsed_start;\n        self.parsed_start += min(amt, plen);', ['C02', 'C03'], 'harmless'),
     ('harmless.reorder_independent', 'src/parser/stream.rs', '        self.payload_rem = head.content_length;\n        self.padding_rem = head.padding_length;\n        self.raw_start = past_head;', '        self.raw_start = past_head;\n        self.padding_rem = head.padding_length;\n        self.payload_rem = head.content_length;', ['C02'], 'harmless'),
